@@ -24,6 +24,8 @@ ASSUMPTIONS = [
     "modifications only target those base nodes, so they are valid whenever they take effect",
 ]
 NT_FLOOR = 0.3
+# coverage-guided complement (sv/fuzz.py): strategy -> number of cases
+FUZZ = {"thorough": {"program": 15000}}
 _uid = itertools.count()
 BASE = ["b0", "b1", "b2"]
 
